@@ -9,7 +9,7 @@
 //
 //	P <pid> <hex pkgpath> <hex source file|->
 //	X <pid> <hex error text>                       load/type error: package not built
-//	F <fid> <pid> <hex name> nblocks=<n> recover=<bid|-> dom=<full|rows>
+//	F <fid> <pid> <hex name> nblocks=<n> recover=<bid|-> dom=<full|rows> syn=<0|1>   (syn=1: synthetic function)
 //	B <fid> <bid> preds=<csv|-> succs=<csv|-> idom=<bid|-> pre=<k> post=<k> dominees=<csv|->
 //	      pre/post = index of the block in Function.DomPreorder()/DomPostorder()
 //	D <fid> <a> <bits>                             bits[b] = Dominates(Blocks[a], Blocks[b]), b = 0..n-1
@@ -112,6 +112,15 @@ func (d *Dumper) Error(pid int, err string) {
 
 // Function dumps one function (no-op for functions without blocks).
 func (d *Dumper) Function(pid int, fn *ir.Function) {
+	name := fn.String()
+	if fn.Synthetic != "" {
+		name += " [" + string(fn.Synthetic) + "]"
+	}
+	d.FunctionNamed(pid, fn, name, fn.Synthetic != "")
+}
+
+// FunctionNamed dumps one function under the given name.
+func (d *Dumper) FunctionNamed(pid int, fn *ir.Function, name string, synthetic bool) {
 	n := len(fn.Blocks)
 	if n == 0 {
 		return
@@ -128,7 +137,11 @@ func (d *Dumper) Function(pid int, fn *ir.Function) {
 	if full {
 		mode = "full"
 	}
-	fmt.Fprintf(w, "F %d %d %s nblocks=%d recover=%s dom=%s\n", fid, pid, Hex(fn.String()), n, rec, mode)
+	syn := 0
+	if synthetic {
+		syn = 1
+	}
+	fmt.Fprintf(w, "F %d %d %s nblocks=%d recover=%s dom=%s syn=%d\n", fid, pid, Hex(name), n, rec, mode, syn)
 
 	pre := make(map[*ir.BasicBlock]int, n)
 	post := make(map[*ir.BasicBlock]int, n)
